@@ -49,6 +49,9 @@ CHECKS = {
  "C03": ("model_checking", "complete product enumeration (name x place x kind; .gitignore rule sets; submodule/subproject options x cwd) with Git's check-ignore as oracle",
          "every (name, location, kind) cell over 42 names x 9 locations x 5 kinds packed and cell by cell, Git repositories for every .gitignore rule set (<=2 of 6 quick, all 64 thorough) x nested .gitignore over files in tracked/untracked/ignored states, and submodule + Meson subproject trees x 4 option combinations x 3 working directories; the examined sets of lint --json, spdx, lint-file and annotate -r must equal the reference covered set on every specified path",
          "Git 2.39.5 is the oracle for VCS exclusion; unspecified cells (nested LICENSES/.reuse, lower-case names, .git files) not asserted", "4/C03"),
+ "C14": ("model_checking", "deviation-bounded exhaustive enumeration of environment answers behind harness-owned seams (virtual process pool, directory-listing order, hash seed, cwd, root spelling)",
+         "8 trees x every pool chunk size x chunk execution order on a virtual pool that pickles the callable per chunk, every permutation of every directory listing (complete product or <= 2 deviating directories), 4 working directories x 6 root spellings, and one fresh interpreter per PYTHONHASHSEED (64 quick / 512 thorough): normalised lint --json and spdx output must equal the reference run",
+         "kernel scheduling of real worker processes is not explored (virtual pool; one free-running real-pool run per tree is sampling); hash seeds are a finite range", "4/C14"),
 }
 PENDING_REASON = "check not built yet in this session (design in DESIGN.md section 4); not claimed until its machinery exists"
 
